@@ -676,7 +676,9 @@ def policy_stage(c, n_cases):
   from vizier._src.algorithms.policies import designer_policy as dp
   from vizier._src.algorithms.designers import grid, quasi_random
   from vizier._src.algorithms.designers.eagle_strategy import eagle_strategy
-  kinds = ['grid', 'sgrid', 'qr', 'eagle']
+  from vizier._src.algorithms.evolution import nsga2
+  import random as _random
+  kinds = ['grid', 'sgrid', 'qr', 'eagle', 'nsga', 'eagle']
   for ci in range(n_cases):
     kind = kinds[ci % len(kinds)]
     desc = gen_space(c.rng, ['double', 'int', 'discrete', 'cat'], 1, 3)
@@ -690,11 +692,19 @@ def policy_stage(c, n_cases):
       factory, pseed = grid.GridSearchDesigner.from_problem, seed
     elif kind == 'qr':
       factory, pseed = quasi_random.QuasiRandomDesigner.from_problem, seed
+    elif kind == 'nsga':
+      factory, pseed = (lambda p, seed=None: nsga2.NSGA2Designer(p, population_size=4, seed=seed)), seed
     else:
       factory, pseed = eagle_strategy.EagleStrategyDesigner, seed
     steps = gen_steps(c.rng, c.rng.randrange(3, 12), max_count=4)
     rebuild = gen_restarts(c.rng, len(steps))
-    measure = Measure(ci, ['obj'], p_infeasible=0.1)
+    measure = Measure(ci, ['obj'], p_infeasible=0.0 if kind == 'nsga' else 0.1)
+    # which of the active trials finish first: in id order, or in any order (a later trial of a batch alone, …)
+    order = ['in-order', 'any-order', 'last-first'][(ci + ci // len(kinds)) % 3]
+    if ci in (3, 4):
+      # directed: the LAST trial of a batch finishes alone, the policy is rebuilt, then the rest finish
+      order, rebuild = 'last-first', [True] * 5
+      steps = [{'count': 3, 'complete': 0}, {'count': 1, 'complete': 1}, {'count': 1, 'complete': 2}, {'count': 2, 'complete': 1}, {'count': 1, 'complete': 2}]
 
     def run(rebuild_flags):
       sup = pythia.InRamPolicySupporter(copy.deepcopy(problem))
@@ -703,7 +713,11 @@ def policy_stage(c, n_cases):
         if pol is None or rebuild_flags[i]:
           # what PythiaServicer.Suggest does on every request
           pol = dp.PartiallySerializableDesignerPolicy(sup.study_config, sup, factory, seed=pseed)
-        active = sup.GetTrials(status_matches=vz.TrialStatus.ACTIVE)
+        active = list(sup.GetTrials(status_matches=vz.TrialStatus.ACTIVE))
+        if order == 'any-order':
+          _random.Random(ci * 1000 + i).shuffle(active)
+        elif order == 'last-first':
+          active.reverse()
         for t in active[:st['complete']]:
           measure.complete(t)
         trials = sup.SuggestTrials(pol, st['count'])
@@ -713,8 +727,27 @@ def policy_stage(c, n_cases):
     a = run([False] * len(steps))
     b = run(rebuild)
     c.traces += 2
-    case = {'designer': kind, 'space': desc, 'policy_seed': pseed, 'steps': steps, 'policy_rebuilt_before_step': rebuild}
-    c.count(1, ('policy', ci) if any(rebuild[1:]) else None, kind='policy:' + kind)
+    case = {'designer': kind, 'space': desc, 'policy_seed': pseed, 'steps': steps, 'policy_rebuilt_before_step': rebuild, 'completion_order': order}
+    c.count(1, ('policy', ci) if any(rebuild[1:]) else None, kind='policy:' + kind + ':' + order)
+    if kind == 'nsga':
+      # the sampler's RandomState is not persisted (known finding evolution-restart-resets-sampler-state), so the
+      # suggestions of a rebuilt NSGA-II differ; what must agree is WHICH trials reached the designer: the
+      # trial counter and the number of population rows
+      def nsga_view(run_out):
+        out = []
+        for r in run_out:
+          d = dict(r['dump'])
+          rows = None
+          for k2, v2 in d.items():
+            if k2.endswith('|values') or k2 == 'values':
+              try:
+                rows = json.loads(v2)['xs']['shape'][0]
+              except (ValueError, KeyError, TypeError):
+                rows = 'undecodable'
+          seen = [v2 for k2, v2 in d.items() if k2.endswith('num_trials_seen')]
+          out.append({'sug': len(r['sug']), 'dump': {'num_trials_seen': seen, 'population_rows': rows}})
+        return out
+      a, b = nsga_view(a), nsga_view(b)
     fd = first_diff(a, b, ['sug', 'dump'])
     if fd is not None:
       i, f = fd
